@@ -637,6 +637,23 @@ def gen_parse_ops(rng, tier):
     for loc in LOCALES:
         for t in ("dddd", "ddd", "dd", "MMMM", "MMM"):
             yield ("fromfmt", loc, (("t", t),), "invalid", gen_now(rng), ("err", "ValueError"), "mut:word")
+    # 7c. the zone-name token with names that are not IANA zones: directories of the tz database (region prefixes), system files
+    #     that live next to the zones, near misses. The string matches the format; the value is invalid -> ValueError
+    import zoneinfo as _zi
+    names = sorted(_zi.available_timezones())
+    prefixes = sorted({n.rsplit("/", k)[0] for n in names for k in (1, 2) if "/" in n} - set(names))
+    bad = prefixes + ["localtime", "posixrules", "right/UTC", "posix/UTC", "posix/Europe/Paris", "Foo/Bar", "Europe/Pari", "Europe/Paris/",
+                      "europe/paris", "zone.tab", "tzdata.zi", "leapseconds", "Etc/", "America/Argentina/"]
+    for nm in bad:
+        for fmt_parts in ((("t", "YYYY"), ("l", "-"), ("t", "MM"), ("l", "-"), ("t", "DD"), ("l", " "), ("t", "HH"), ("l", ":"), ("t", "mm"),
+                           ("l", ":"), ("t", "ss"), ("l", " "), ("t", "z")),
+                          (("t", "z"), ("l", " "), ("t", "YYYY"), ("l", " "), ("t", "DDDD")), (("t", "z"),)):
+            y, mo, d = rng.randint(1000, 9999), rng.randint(1, 12), rng.randint(1, 28)
+            txt = {13: "%04d-%02d-%02d %02d:%02d:%02d %s" % (y, mo, d, rng.randint(0, 23), rng.randint(0, 59), rng.randint(0, 59), nm),
+                   5: "%s %04d %03d" % (nm, y, rng.randint(1, 365)), 1: nm}[len(fmt_parts)]
+            yield ("fromfmt", "en", fmt_parts, txt, gen_now(rng), ("err", "ValueError"), "badzone")
+    for nm in rng.sample(names, 25):
+        yield ("fromfmt", "en", (("t", "z"),), nm, gen_now(rng), ("noraise",), "badzone")
     # 7b. a 24-hour token next to the meridiem token (hours 0..25, 99; zero and non-zero minute/second/fraction)
     yield from gen_h24_meridiem(rng, tier)
     # 8. perturbed digits / out-of-range values: no expectation of the oracle, model and implementation must agree
